@@ -48,8 +48,8 @@ inductive Node where
   | str (own : Own) (s : List Nat)
   /-- `cap = none` ⇔ `children == nullptr` (capacity 0); a `MetaNode` of an array only carries `cap` -/
   | arr (cap : Option Nat) (elems : List Node)
-  /-- `meta = none` ⇔ `children == nullptr`; a member is (ownership of the name string, name bytes, value) -/
-  | obj (meta : Option ObjMeta) (mems : List (Own × Key × Node))
+  /-- `mt = none` ⇔ `children == nullptr`; a member is (ownership of the name string, name bytes, value) -/
+  | obj (mt : Option ObjMeta) (mems : List (Own × Key × Node))
   deriving Repr, Inhabited
 
 abbrev Member := Own × Key × Node
@@ -163,10 +163,10 @@ def objMap : Option ObjMeta → Option MapT
 def grow (cap : Nat) : Nat := cap + (cap + 1) / 2
 
 /-- `memberReserveImpl(new_cap)`: realloc if larger; `if (old_cap == 0) setMap(nullptr)` -/
-def memberReserveMeta (n : Nat) (meta : Option ObjMeta) : Option ObjMeta :=
-  if n > objCap meta then
-    some { cap := n, map := if objCap meta = 0 then none else objMap meta }
-  else meta
+def memberReserveMeta (n : Nat) (mt : Option ObjMeta) : Option ObjMeta :=
+  if n > objCap mt then
+    some { cap := n, map := if objCap mt = 0 then none else objMap mt }
+  else mt
 
 /-- `DestroyMap()` -/
 def destroyMapMeta : Option ObjMeta → Option ObjMeta
@@ -179,22 +179,22 @@ def destroyMapMeta : Option ObjMeta → Option ObjMeta
 def findFromMap (key : Key) (mp : MapT) : Option Nat := (mapFind key mp).map (·.2)
 
 /-- `findMemberImpl(StringView key)` as a position: via the map when there is one, else the linear scan -/
-def findMemberSV (key : Key) (meta : Option ObjMeta) (ms : List Member) : Option Nat :=
-  match objMap meta with
+def findMemberSV (key : Key) (mt : Option ObjMeta) (ms : List Member) : Option Nat :=
+  match objMap mt with
   | some mp => findFromMap key mp
   | none => ms.findIdx? (fun m => mkey m == key)
 
 /-- `findMemberImpl(const char*, size_t)` (static dispatch): same, the scan compares length then bytes
     (`InlinedMemcmpEq`, property C14) -/
-def findMemberPL (key : Key) (meta : Option ObjMeta) (ms : List Member) : Option Nat :=
-  match objMap meta with
+def findMemberPL (key : Key) (mt : Option ObjMeta) (ms : List Member) : Option Nat :=
+  match objMap mt with
   | some mp => findFromMap key mp
   | none => ms.findIdx? (fun m => (mkey m).length == key.length && mkey m == key)
 
 /-- one step of `atPointerImpl` -/
 def Node.atStep : Node → PStep → Option Node
-  | .obj meta ms, .key k =>
-    match findMemberSV k meta ms with
+  | .obj mt ms, .key k =>
+    match findMemberSV k mt ms with
     | some i => (ms[i]?).map mval
     | none => none
   | .arr _ es, .num n => if 0 ≤ n ∧ n < es.length then es[n.toNat]? else none   -- idx >= 0 && idx < (int)Size()
@@ -256,19 +256,21 @@ def Node.modifyAt {ρ : Type} (f : Node → Option (Node × ρ)) : Node → Path
 
 /-! ## mutating node operations -/
 
+/-- the capacity check at the head of `addMemberImpl`:
+    `if (count >= Capacity()) { Capacity() == 0 ? containerMalloc(16) [MetaNode(16): map = nullptr]
+                                                 : containerRealloc(cap + (cap+1)/2) [MetaNode kept, cap updated] }` -/
+def addGrowMeta (count : Nat) : Option ObjMeta → ObjMeta
+  | none => { cap := 16, map := none }
+  | some m =>
+    if count ≥ m.cap then
+      (if m.cap = 0 then { cap := 16, map := none } else { cap := grow m.cap, map := m.map })
+    else m
+
 /-- `addMemberImpl(key, value, alloc, copyKey)` -/
 def addMemberImpl (key : Key) (value : Node) (copyKey : Bool) : Node → Option (Node × Nat)
-  | .obj meta ms =>
+  | .obj mt ms =>
     let count := ms.length
-    -- if (count >= Capacity()) { Capacity()==0 ? containerMalloc(16) [MetaNode(16): map = nullptr]
-    --                                           : containerRealloc(cap + (cap+1)/2) [meta block kept] }
-    let m1 : ObjMeta :=
-      match meta with
-      | none => { cap := 16, map := none }
-      | some m =>
-        if count ≥ m.cap then
-          (if m.cap = 0 then { cap := 16, map := none } else { cap := grow m.cap, map := m.map })
-        else m
+    let m1 := addGrowMeta count mt
     -- name.SetString(key, alloc) / name.SetString(key); last->rawAssign(name); (last+1)->rawAssign(value)
     let name : Member := (if copyKey then Own.free else Own.const, key, value)
     -- if (nullptr != getMap()) getMap()->emplace(key, count)
@@ -293,9 +295,9 @@ def removeAt (m : ObjMeta) (mp : Option MapT) (ms : List Member) (pos : Nat) : O
 
 /-- `removeMemberImpl(key)` -/
 def removeMemberImpl (key : Key) : Node → Option (Node × Bool)
-  | .obj meta ms =>
-    match meta with
-    | none => some (.obj meta ms, false)                     -- nullptr == children(): not_find
+  | .obj mt ms =>
+    match mt with
+    | none => some (.obj mt ms, false)                     -- nullptr == children(): not_find
     | some m =>
       match m.map with
       | some mp =>
@@ -303,19 +305,19 @@ def removeMemberImpl (key : Key) : Node → Option (Node × Bool)
         | some e =>
           -- m = begin + it->second; erase(it)
           (removeAt m (some (mp.eraseP (fun x => x.1 == key))) ms e.2).map fun n => (n, true)
-        | none => some (.obj meta ms, false)
+        | none => some (.obj mt ms, false)
       | none =>
         match ms.findIdx? (fun x => mkey x == key) with        -- linear scan
         | some pos => (removeAt m none ms pos).map fun n => (n, true)
-        | none => some (.obj meta ms, false)
+        | none => some (.obj mt ms, false)
   | _ => none
 
 /-- `eraseMemberImpl(begin+first, begin+last)`; returns the result iterator as a position -/
 def eraseMemberImpl (first last : Nat) : Node → Option (Node × Nat)
-  | .obj meta ms =>
+  | .obj mt ms =>
     if first ≤ last ∧ last ≤ ms.length then
       -- DestroyMap();
-      let meta1 := destroyMapMeta meta
+      let meta1 := destroyMapMeta mt
       -- if (size_t(last - first) >= size) { destroy(); setChildren(nullptr); subLength(size); return MemberEnd(); }
       if last - first ≥ ms.length then some (.obj none [], 0)
       else some (.obj meta1 (ms.take first ++ ms.drop last), first)
@@ -324,11 +326,11 @@ def eraseMemberImpl (first last : Nat) : Node → Option (Node × Nat)
 
 /-- `CreateMap(alloc)` -/
 def createMapImpl : Node → Option Node
-  | .obj meta ms =>
+  | .obj mt ms =>
     -- if (nullptr == children()) memberReserveImpl(16, alloc);
-    let meta1 := match meta with
-      | none => memberReserveMeta 16 meta
-      | some _ => meta
+    let meta1 := match mt with
+      | none => memberReserveMeta 16 mt
+      | some _ => mt
     match meta1 with
     | some m =>
       match m.map with
@@ -338,11 +340,11 @@ def createMapImpl : Node → Option Node
   | _ => none
 
 def destroyMapImpl : Node → Option Node
-  | .obj meta ms => some (.obj (destroyMapMeta meta) ms)
+  | .obj mt ms => some (.obj (destroyMapMeta mt) ms)
   | _ => none
 
 def memberReserveImpl (n : Nat) : Node → Option Node
-  | .obj meta ms => some (.obj (memberReserveMeta n meta) ms)
+  | .obj mt ms => some (.obj (memberReserveMeta n mt) ms)
   | _ => none
 
 /-- `pushBackImpl` -/
@@ -379,9 +381,9 @@ def clearImpl : Node → Option Node
 
 /-- `dom-find`: both `FindMember` overloads, `HasMember`, `operator[]` (a null node when missing) -/
 def findImpl (key : Key) : Node → Option Res
-  | .obj meta ms =>
-    let sv := findMemberSV key meta ms
-    let pl := findMemberPL key meta ms
+  | .obj mt ms =>
+    let sv := findMemberSV key mt ms
+    let pl := findMemberPL key mt ms
     match sv with
     | some i => (ms[i]?).map fun m => .found sv pl true (mval m).abs
     | none => some (.found sv pl false .null)
@@ -389,7 +391,7 @@ def findImpl (key : Key) : Node → Option Res
 
 def infoImpl : Node → Res
   | .arr cap es => .infoC es.length es.isEmpty (arrCap cap) false ((es.getLast?).map Node.abs)
-  | .obj meta ms => .infoC ms.length ms.isEmpty (objCap meta) (objMap meta).isSome none
+  | .obj mt ms => .infoC ms.length ms.isEmpty (objCap mt) (objMap mt).isSome none
   | .str _ s => .infoS s.length s.isEmpty
   | _ => .scalar
 
@@ -412,7 +414,7 @@ def Node.apply (env : Env) : NodeOp → Node → Option (Node × Res)
   | .find k, x => (findImpl k x).map fun r => (x, r)
   | .atPtr ps, x => some (x, .atPtr ((x.atPointer ps).map Node.abs))
   | .info, x => some (x, infoImpl x)
-  | .dump, x => some (x, .dump (env.dump x.abs))
+  | .dump c r, x => some (x, .dump (env.dump x.abs c r))
 
 /-! ## two-node operations -/
 
@@ -425,11 +427,13 @@ def moveNode (doc : Node) (dst src : Path) : Option Node :=
 def moveNode2 (D : Node) (dst : Path) (S : Node) (src : Path) : Option (Node × Node) :=
   (S.get src).bind fun v => (S.set src .null).bind fun S' => (D.set dst v).map fun D' => (D', S')
 
-/-- `dst.CopyFrom(src, alloc, copyString)`: `this->destroy(); new (this) DNode(rhs, alloc, copyString)` — the
-    placement-new zero-initialises `*this` (a null node) before the body reads `rhs` -/
+/-- `dst.CopyFrom(src, alloc, copyString)`: `this->destroy(); new (this) DNode(rhs, alloc, copyString)`.
+    Inside one document neither node may be an ancestor-or-self of the other: the constructor writes the
+    destination's type/length word before it traverses `rhs` (with `dst` inside `src` it would meet a container
+    with a length and no children). -/
 def copyNode (cs : Bool) (doc : Node) (dst src : Path) : Option Node :=
-  if dst.isPrefixOf src then none
-  else (doc.set dst .null).bind fun d1 => (d1.get src).bind fun v => d1.set dst (copyOf cs v)
+  if dst.isPrefixOf src || src.isPrefixOf dst then none
+  else (doc.get src).bind fun v => doc.set dst (copyOf cs v)
 
 def copyNode2 (cs : Bool) (D : Node) (dst : Path) (S : Node) (src : Path) : Option Node :=
   (S.get src).bind fun v => D.set dst (copyOf cs v)
@@ -448,17 +452,25 @@ def swapNodes2 (D : Node) (a : Path) (S : Node) (b : Path) : Option (Node × Nod
 /-- four documents and the allocator kind.  EXTENSION POINT (C13): the ownership ledger is added by a later task;
     until then `dom-reset track` prints `ledger=ok`. -/
 structure Session where
+  /-- a case is open (between `dom-reset` and `dom-end`) -/
+  live : Bool
   alloc : AllocKind
   docs : List Node
   deriving Repr
 
-def Session.init (a : AllocKind := .pool) : Session := ⟨a, [.null, .null, .null, .null]⟩
+/-- before the first `dom-reset`: no case is open -/
+def Session.init : Session := ⟨false, .pool, [.null, .null, .null, .null]⟩
 
-def Session.abs (s : Session) : State := ⟨s.alloc, s.docs.map Node.abs⟩
+/-- after `dom-reset a`: four null documents -/
+def Session.fresh (a : AllocKind) : Session := ⟨true, a, [.null, .null, .null, .null]⟩
 
-/-- the command interpreter of the model; `none` = `bad-op` -/
-def step (env : Env) (s : Session) : Op → Option (Session × Out)
-  | .reset a => some (Session.init a, .reset (a == .track))
+def Session.abs (s : Session) : State := ⟨s.live, s.alloc, s.docs.map Node.abs⟩
+
+/-- commands inside an open case -/
+def stepLive (env : Env) (s : Session) : Op → Option (Session × Out)
+  | .reset a => some (Session.fresh a, .reset)
+  -- dom-end: everything is destroyed; EXTENSION POINT (C13): the ledger verdict is computed here
+  | .fin => some ({ Session.fresh s.alloc with live := false }, .fin (s.alloc == .track))
   | .parse d text =>
     if d < s.docs.length then
       -- Parse: destroyDom() (the document becomes null), then parseImpl; on success the root is move-assigned
@@ -498,6 +510,12 @@ def step (env : Env) (s : Session) : Op → Option (Session × Out)
     (s.docs[d]?).bind fun D => (s.docs[d2]?).map fun S =>
       ({ s with docs := (s.docs.set d S).set d2 D }, .two S.abs D.abs)
 
+/-- the command interpreter of the model; `none` = `bad-op` -/
+def step (env : Env) (s : Session) (op : Op) : Option (Session × Out) :=
+  match op with
+  | .reset a => some (Session.fresh a, .reset)
+  | op => if s.live then stepLive env s op else none
+
 /-- run a list of commands; a rejected command leaves the state unchanged and yields `none` (`bad-op`) -/
 def run (env : Env) : Session → List Op → Session × List (Option Out)
   | s, [] => (s, [])
@@ -528,11 +546,11 @@ def renderRes (r : Res) (doc : JVal) : String :=
       (match b with | some v => " back=" ++ v.show | none => "")
   | .infoS sz e => s!"size={sz} empty={showB e}"
   | .scalar => "scalar"
-  | .dump (some bs) => "err=0 dump=" ++ hexStr bs
-  | .dump none => "err=12 dump=-"
+  | .dump text => text
 
 def render : Out → String
-  | .reset track => if track then "ok ledger=ok" else "ok"
+  | .reset => "ok"
+  | .fin track => if track then "ok ledger=ok" else "ok"
   | .parse true doc => "ok doc=" ++ doc.show
   | .parse false _ => "err=2 doc=n"
   | .node r doc => renderRes r doc
@@ -610,10 +628,13 @@ def parseAlloc (s : String) : Option AllocKind :=
   if s = "pool" then some .pool else if s = "simple" then some .simple else if s = "track" then some .track else none
 
 def parseNat (s : String) : Option Nat := natOfChars s.toList
+def parseNatLe (bound : Nat) (s : String) : Option Nat :=
+  (natOfChars s.toList).bind fun n => if n ≤ bound then some n else none
 def parseHexS (s : String) : Option (List Nat) := hexBytes s.toList
 
 def parseOp : List String → Option Op
   | ["dom-reset", a] => (parseAlloc a).map .reset
+  | ["dom-end"] => some .fin
   | ["dom-parse", d, hx] => do some (.parse (← parseNat d) (← parseHexS hx))
   | ["dom-set", d, p, v] => do some (.node (← parseNat d) (← parsePath p) (.set (← parseVal v)))
   | ["dom-add", d, p, k, v, ck] => do
@@ -621,14 +642,14 @@ def parseOp : List String → Option Op
   | ["dom-remove", d, p, k] => do some (.node (← parseNat d) (← parsePath p) (.remove (← parseHexS k)))
   | ["dom-erasemem", d, p, f, l] => do
       some (.node (← parseNat d) (← parsePath p) (.eraseMem (← parseNat f) (← parseNat l)))
-  | ["dom-mreserve", d, p, n] => do some (.node (← parseNat d) (← parsePath p) (.mreserve (← parseNat n)))
+  | ["dom-mreserve", d, p, n] => do some (.node (← parseNat d) (← parsePath p) (.mreserve (← parseNatLe 100000 n)))
   | ["dom-createmap", d, p] => do some (.node (← parseNat d) (← parsePath p) .createMap)
   | ["dom-destroymap", d, p] => do some (.node (← parseNat d) (← parsePath p) .destroyMap)
   | ["dom-push", d, p, v] => do some (.node (← parseNat d) (← parsePath p) (.push (← parseVal v)))
   | ["dom-pop", d, p] => do some (.node (← parseNat d) (← parsePath p) .pop)
   | ["dom-erase", d, p, f, l] => do
       some (.node (← parseNat d) (← parsePath p) (.erase (← parseNat f) (← parseNat l)))
-  | ["dom-reserve", d, p, n] => do some (.node (← parseNat d) (← parsePath p) (.reserve (← parseNat n)))
+  | ["dom-reserve", d, p, n] => do some (.node (← parseNat d) (← parsePath p) (.reserve (← parseNatLe 100000 n)))
   | ["dom-clear", d, p] => do some (.node (← parseNat d) (← parsePath p) .clear)
   | ["dom-move", d, p, d2, p2] => do
       some (.move (← parseNat d) (← parsePath p) (← parseNat d2) (← parsePath p2))
@@ -642,11 +663,14 @@ def parseOp : List String → Option Op
   | "dom-at" :: d :: p :: steps => do
       some (.node (← parseNat d) (← parsePath p) (.atPtr (← steps.mapM parsePStep)))
   | ["dom-info", d, p] => do some (.node (← parseNat d) (← parsePath p) .info)
-  | ["dom-dump", d, p] => do some (.node (← parseNat d) (← parsePath p) .dump)
+  | ["dom-dump", d, p] => do some (.node (← parseNat d) (← parsePath p) (.dump 256 0))
+  | ["dom-dumpwb", d, p, c, r] => do
+      some (.node (← parseNat d) (← parsePath p) (.dump (← parseNatLe (2 ^ 20) c) (← parseNatLe 8 r)))
   | _ => none
 
 /-- `dom-eq`: `a == b`, `a != b`, `b == a`, `a == a` -/
 def runEq (s : Session) (d : Nat) (p : Path) (d2 : Nat) (p2 : Path) : Option String :=
+  if !s.live then none else
   (s.docs[d]?).bind fun D => (s.docs[d2]?).bind fun S => (D.get p).bind fun a => (S.get p2).map fun b =>
     s!"eq={showB (a.eqv b)} ne={showB (!(a.eqv b))} eqr={showB (b.eqv a)} refl={showB (a.eqv a)}"
 
